@@ -13,7 +13,7 @@ Inductive hop := HL (l : label) | HFlush (e : bool) (sid : nat) (sizes : list Z)
 
 (* a_cmp = false: the op ran inside a concurrent phase; its enabledness is checked, its snapshot is not *)
 Record astep := { a_op : hop; a_cmp : bool; a_inuse : list Z; a_qs : Z; a_qc : Z }.
-Record acase := { a_fx : bool; a_caps : list nat; a_qcap : Z; a_steps : list astep }.
+Record acase := { a_fx : bool; a_gx : bool; a_caps : list nat; a_qcap : Z; a_steps : list astep }.
 
 Definition with_wake (e : bool) (s s1 : st) : st :=
   if (length (queue_to (negb e) s) <? length (queue_to (negb e) s1))%nat then do_poll (negb e) s1 else s1.
@@ -71,14 +71,21 @@ Definition settle_sock (e : bool) (s : cst) : cst :=
   fold_left (fun s1 _ => cstep' (drain e s1) (SockStep e)) (sock_to e s) s.
 Definition settle (s : cst) : cst := settle_sock true (settle_sock false s).
 
+(* the object the harness holds for (e, sid): the one in the table, or - after its Close - the most recent
+   object created for that id (the harness keeps using its pointer for writes / flushes after Close) *)
+Definition last_obj (e : bool) (sid : nat) (s : cst) : option nat :=
+  fold_left (fun acc o => if Bool.eqb (oe (objs s o)) e && Nat.eqb (osid (objs s o)) sid then Some o else acc)
+            (seq 0 (nobjs s)) None.
+Definition obj_for (e : bool) (sid : nat) (s : cst) : option nat :=
+  match tbl s (key e sid) with Some o => Some o | None => last_obj e sid s end.
 Definition on_obj (e : bool) (sid : nat) (s : cst) (f : nat -> option cst) : option cst :=
-  match tbl s (key e sid) with Some o => f o | None => Some s end.
+  match obj_for e sid s with Some o => f o | None => Some s end.
 Definition opt_or (s : cst) (r : option cst) : option cst := match r with Some x => Some x | None => Some s end.
 
 Definition crun_hop (s : cst) (o : hop) : option cst :=
   match o with
   | HL (Open sid) => cstep s (COpen sid)
-  | HL (Write e sid new heap) => match tbl s (key e sid) with Some ob => cstep s (CWrite ob new heap) | None => None end
+  | HL (Write e sid new heap) => match obj_for e sid s with Some ob => cstep s (CWrite ob new heap) | None => None end
   | HL (Flush e sid sizes wpos) => on_obj e sid s (fun ob => Some (settle (cstep' s (CFlush ob sizes wpos))))
   | HFlush e sid sizes wpos =>
       on_obj e sid s (fun ob => Some (settle (cwith_wake e s (cstep' s (CFlush ob sizes wpos)))))
@@ -111,9 +118,9 @@ Fixpoint cfirst_diff (caps : list nat) (s : cst) (l : list astep) (n : nat) : op
 
 Definition check_case (c : acase) : option (nat * Z) :=
   let n := fold_right Nat.add O (a_caps c) in
-  match first_diff (a_caps c) (init (a_fx c) n (a_qcap c)) (a_steps c) 0 with
+  match first_diff (a_caps c) (init (a_fx c) (a_gx c) n (a_qcap c)) (a_steps c) 0 with
   | Some d => Some d
-  | None => cfirst_diff (a_caps c) (cinit (a_fx c) n (a_qcap c)) (a_steps c) 0
+  | None => cfirst_diff (a_caps c) (cinit (a_fx c) (a_gx c) n (a_qcap c)) (a_steps c) 0
   end.
 
 Fixpoint mismatches_from (n : nat) (cs : list acase) : list (nat * nat * Z) :=
@@ -131,4 +138,4 @@ Fixpoint run_hops (s : st) (l : list hop) : st :=
   match l with [] => s | o :: r => run_hops (match run_hop s o with Some s' => s' | None => s end) r end.
 Definition model_inuse_after (c : acase) (k : nat) : list Z :=
   class_inuse 0 (a_caps c)
-    (free (run_hops (init (a_fx c) (fold_right Nat.add O (a_caps c)) (a_qcap c)) (firstn k (map a_op (a_steps c))))).
+    (free (run_hops (init (a_fx c) (a_gx c) (fold_right Nat.add O (a_caps c)) (a_qcap c)) (firstn k (map a_op (a_steps c))))).
